@@ -159,6 +159,13 @@ type Sim struct {
 	CurRes *BlockRes
 
 	TxHooks bool // call Before/AfterTx hooks
+	Phase   func(p string) // optional: told which ABCI call is about to run (begin, deliver, end, commit, idle)
+}
+
+func (s *Sim) phase(p string) {
+	if s.Phase != nil {
+		s.Phase(p)
+	}
 }
 
 // NewSim creates a node, sends InitChain and prepares monitoring.
@@ -308,6 +315,7 @@ func (s *Sim) RunBlock(req *BlockReq, metas []TxMeta, src TxSource) *BlockRes {
 	for _, m := range s.Mons {
 		m.BeforeBlock(s, req)
 	}
+	s.phase("begin")
 	stopped, pi := s.N.Begin(req)
 	if pi != nil {
 		return fail(pi, -1)
@@ -347,6 +355,7 @@ func (s *Sim) RunBlock(req *BlockReq, metas []TxMeta, src TxSource) *BlockRes {
 				m.BeforeTx(s, i, tx, &metas[i])
 			}
 		}
+		s.phase("deliver")
 		d, pi := s.N.Deliver(tx)
 		if pi != nil {
 			return fail(pi, i)
@@ -366,12 +375,15 @@ func (s *Sim) RunBlock(req *BlockReq, metas []TxMeta, src TxSource) *BlockRes {
 		}
 	}
 	s.Metas = metas
+	s.phase("end")
 	end, pi := s.N.End(req.Height)
 	if pi != nil {
 		return fail(pi, -1)
 	}
 	res.End = end
+	s.phase("commit")
 	cm, pi := s.N.Commit()
+	s.phase("idle")
 	if pi != nil {
 		return fail(pi, -1)
 	}
